@@ -1,23 +1,12 @@
-import NbioVerif.Model.Http
-open Http Scan
+import NbioVerif.DrvCommon
+import NbioVerif.Model.HttpMsg
+import NbioVerif.Model.ScanChecked
+/-! httpdrv: line-protocol driver of the HTTP parser family (C06, C07, C08); see harness/cmd/hhttp/main.go. -/
+open Http Scan Drv
 
-def hexVal (c : Char) : Nat :=
-  if c.isDigit then c.toNat - 48 else if c.toNat ≥ 97 then c.toNat - 87 else c.toNat - 55
-
-def unhex (s : String) : List UInt8 :=
-  let rec go : List Char → List UInt8
-    | a :: b :: r => UInt8.ofNat (hexVal a * 16 + hexVal b) :: go r
-    | _ => []
-  go s.toList
-
-def hexDigit (n : Nat) : Char := if n < 10 then Char.ofNat (48 + n) else Char.ofNat (87 + n)
-def hex (b : List UInt8) : String :=
-  String.ofList (b.foldr (fun x acc => hexDigit (x.toNat / 16) :: hexDigit (x.toNat % 16) :: acc) [])
-
-def protoOk (b : List UInt8) : Bool :=
-  let s := String.ofList (b.map (fun x => Char.ofNat x.toNat))
-  s == "HTTP/1.1" || s == "HTTP/1.0" ||
-    (b.length == 8 && b.take 5 == str "HTTP/" && b[6]! == 46 && isNum b[5]! && isNum b[7]!)
+/-- the Parse loop with Go's slice/index expressions checked; 998 = the Go code would panic (C08: unreachable) -/
+def parseChecked (g : Cfg) (p : P) (cache data : List UInt8) (acc : List Ev) : Res P Ev :=
+  (implParseC (machine g) p cache data acc).getD ⟨acc, .inr 998⟩
 
 def showEv : Ev → String
   | .method m => s!"method {hex m}"
@@ -30,12 +19,133 @@ def showEv : Ev → String
   | .trailer k v => s!"trailer {hex k} {hex v}"
   | .complete => "complete"
 
+/-- bytewise lexicographic order (Go's `sort.Strings`) -/
+def bytesLt : List UInt8 → List UInt8 → Bool
+  | [], [] => false
+  | [], _ :: _ => true
+  | _ :: _, [] => false
+  | a :: as, b :: bs => if a < b then true else if b < a then false else bytesLt as bs
+
+def insertSorted (x : Bytes × List Bytes) : List (Bytes × List Bytes) → List (Bytes × List Bytes)
+  | [] => [x]
+  | y :: ys => if bytesLt x.1 y.1 then x :: y :: ys else y :: insertSorted x ys
+
+def sortKeys (h : HMap) : HMap := h.foldl (fun acc x => insertSorted x acc) []
+
+def joinZero : List Bytes → Bytes
+  | [] => []
+  | [v] => v
+  | v :: vs => v ++ [0] ++ joinZero vs
+
+def joinComma : List Bytes → Bytes
+  | [] => []
+  | [v] => v
+  | v :: vs => v ++ [44] ++ joinComma vs
+
+/-- `hdrString` of the harness: sorted keys, values joined by NUL -/
+def hdrString (h : HMap) : String :=
+  String.join ((sortKeys h).map fun (k, vs) => s!"{hex k}:{hex (joinZero vs)},")
+
+def hexNat (n : Nat) : String :=
+  if n == 0 then "0" else
+  let rec go (fuel n : Nat) (acc : List Char) : List Char :=
+    match fuel with
+    | 0 => acc
+    | fuel + 1 => if n == 0 then acc else go fuel (n / 16) (hexDigit (n % 16) :: acc)
+  String.ofList (go 20 n [])
+
+def showDelivered : Delivered → String
+  | .req r =>
+    s!"req\{{hex r.method}|{hex r.target}|{hex r.proto}|{hex r.host}|{hdrString r.header}|cl{r.contentLength}|te{hex (joinComma r.te)}|{r.body.length}:{hexNat (fnv r.body).toNat}|{hdrString r.trailer}|close{r.close}}"
+  | .resp r =>
+    s!"res\{{hex r.proto}|{r.code}|{hex r.status}|{hdrString r.header}|cl{r.contentLength}|{r.body.length}:{hexNat (fnv r.body).toNat}|{hdrString r.trailer}}"
+
 structure DS where
   g : Cfg
   limit : Nat
   p : P
   cache : List UInt8
+  cur : Option Building        -- processor: message under construction
   dead : Bool
+  -- C07 (hhttp7): the messages of the case, their concatenated rendering, the message boundaries
+  msgs : List Msg := []
+  stream : List UInt8 := []
+  bounds : List Nat := []
+  neighbour : Bool := false
+
+/-! ### C07: decoding of `M` lines (see harness/cmd/hhttp7/msg.go) -/
+
+def decHdrs (s sep inner : String) : Option (List Hdr) :=
+  if s.isEmpty then some [] else
+  (s.splitOn sep).mapM fun x =>
+    match x.splitOn inner with
+    | [n, p, v] => some { name := unhex n, pad := p.toNat!, value := unhex v }
+    | _ => none
+
+def decChunks (s : String) : Option (List Chunk) :=
+  if s.isEmpty then some [] else
+  (s.splitOn ";").mapM fun x =>
+    match x.splitOn "." with
+    | [a, b, c] => some { size := unhex a, ext := unhex b, data := payload c }
+    | _ => none
+
+def decMsg (ws : List String) : Option Msg :=
+  match ws with
+  | [st, hs, bd] =>
+    if !(hs.startsWith "h=") || !(bd.startsWith "b=") then none else
+    let start? : Option Start := match st.splitOn ":" with
+      | ["q", a, b, c] => some (.request (unhex a) (unhex b) (unhex c))
+      | ["s", a, b, c] => some (.status (unhex a) (unhex b) (unhex c))
+      | _ => none
+    let body? : Option Body := match (bd.drop 2).toString.splitOn "|" with
+      | ["n"] => some .none
+      | ["f", d] => some (.fixed (payload d))
+      | ["c", cs, last, ext, trs] =>
+        match decChunks cs, decHdrs trs ";" "." with
+        | some cs, some trs => some (.chunked cs (unhex last) (unhex ext) trs)
+        | _, _ => none
+      | _ => none
+    match start?, decHdrs (hs.drop 2).toString "," ":", body? with
+    | some st, some hs, some b => some { start := st, headers := hs, body := b }
+    | _, _, _ => none
+  | _ => none
+
+def showFraming : Framing → String
+  | .none => "none" | .length n => s!"cl{n}" | .chunked _ => "chunked" | .invalid => "invalid"
+
+/-- the normal form printed by the harness for net/http's result (`normRefReq`/`normRefResp`) -/
+def showNorm (m : Msg) : String :=
+  match m.start with
+  | .request .. =>
+    match normReqSpec m with
+    | some n =>
+      s!"nreq\{{hex (n.line.getD 0 [])}|{hex (n.line.getD 1 [])}|{hex (n.line.getD 2 [])}|{hex (n.line.getD 3 [])}|{hdrString n.header}|{showFraming n.framing}|{n.body.length}:{hexNat (fnv n.body).toNat}|{hdrString n.trailer}|close{n.close}}"
+    | none => "none"
+  | .status .. =>
+    match normRespSpec m with
+    | some n =>
+      s!"nres\{{hex (n.line.getD 0 [])}|{decimal (n.line.getD 1 [])}|{hex (n.line.getD 2 [])}|{hdrString n.header}|{showFraming n.framing}|{n.body.length}:{hexNat (fnv n.body).toNat}|{hdrString n.trailer}}"
+    | none => "none"
+
+/-- feed `stream` in the given segment sizes (the rest in one piece), as the harness does -/
+def feedSegs (g : Cfg) (limit : Nat) : Nat → P → List UInt8 → List UInt8 → List Nat → List Ev → Res P Ev
+  | 0, p, cache, _, _, acc => ⟨acc, .inl (p, cache)⟩
+  | fuel + 1, p, cache, rest, segs, acc =>
+    if rest = [] then ⟨acc, .inl (p, cache)⟩ else
+    let n := match segs with | s :: _ => if s < rest.length && s > 0 then s else rest.length | [] => rest.length
+    let data := rest.take n
+    if cache ≠ [] && limit > 0 && cache.length + data.length > limit then ⟨acc, .inr E.tooLong.code⟩
+    else match parseChecked g p cache data acc with
+      | ⟨acc', .inl (p', cache')⟩ => feedSegs g limit fuel p' cache' (rest.drop n) segs.tail acc'
+      | r => r
+
+/-- run the processor glue over the events of one Parse call -/
+def runProc (s : DS) (evs : List Ev) : Option Building × String :=
+  match procRun s.g.isClient s.cur evs [] with
+  | some (cur, out) => (cur, String.intercalate ";" (out.map showDelivered))
+  | none => (none, "proc-nil-deref")
+
+def hexList (s : String) : List (List UInt8) := (s.splitOn ",").filter (· ≠ "") |>.map unhex
 
 partial def loop (h : IO.FS.Stream) (s : DS) : IO Unit := do
   let line ← h.getLine
@@ -45,29 +155,77 @@ partial def loop (h : IO.FS.Stream) (s : DS) : IO Unit := do
   | ["C", cli, maxb, lim] =>
     let g : Cfg := { isClient := cli == "1", maxBody := maxb.toNat!, urlOk := fun _ => true, protoOk := fun _ => true }
     IO.println "ok"
-    loop h { g, limit := lim.toNat!, p := Http.init g, cache := [], dead := false }
-  | ["D", hx, bu, bp] =>
+    loop h { g, limit := lim.toNat!, p := Http.init g, cache := [], cur := none, dead := false }
+  | "D" :: hx :: rest =>
     if s.dead then IO.println "dead"; loop h s
     else
       let data := unhex hx
-      let badUrls := ((bu.drop 7).toString.splitOn ",").filter (· ≠ "") |>.map unhex
-      let badProtos := ((bp.drop 9).toString.splitOn ",").filter (· ≠ "") |>.map unhex
+      let badUrls := hexList ((field rest "badurl").getD "")
+      let badProtos := hexList ((field rest "badproto").getD "")
+      let okProtos := hexList ((field rest "okproto").getD "")
+      -- the verdict of http.ParseHTTPVersion is an input; the model's own `parseHTTPVersion` must agree with it
+      let protoMismatch := badProtos.any (fun b => (parseHTTPVersion b).isSome) || okProtos.any (fun b => (parseHTTPVersion b).isNone)
       let g : Cfg := { s.g with urlOk := fun u => !badUrls.contains u, protoOk := fun u => !badProtos.contains u }
       if s.cache ≠ [] && s.limit > 0 && s.cache.length + data.length > s.limit then
-        IO.println s!"R err={E.tooLong.code} []"
+        IO.println s!"R err={E.tooLong.code} [] msgs="
         loop h { s with dead := true }
       else
-        let r := implParse (machine g) s.p s.cache data []
+        let r := parseChecked g s.p s.cache data []
         let evs := String.intercalate ";" (r.evs.map showEv)
+        let (cur, msgs) := runProc s r.evs
+        let pm := if protoMismatch then " proto-verdict-mismatch" else ""
         match r.fin with
         | .inl (p', cache') =>
-          IO.println s!"R ok cache={cache'.length} [{evs}]"
-          loop h { s with p := p', cache := cache' }
+          IO.println s!"R ok cache={cache'.length} st={p'.st.num} [{evs}] msgs={msgs}{pm}"
+          loop h { s with p := p', cache := cache', cur := cur }
         | .inr e =>
-          IO.println s!"R err={e} [{evs}]"
-          loop h { s with dead := true }
+          IO.println s!"R err={e} [{evs}] msgs={msgs}{pm}"
+          loop h { s with dead := true, cur := cur }
+  | "M" :: rest =>
+    match decMsg rest with
+    | none => IO.println "bad-op"; loop h s
+    | some m =>
+      let b := m.render
+      let wf := if wfMsg m then "" else "not-wf "
+      IO.println s!"R {wf}render={b.length}:{hexNat (fnv b).toNat}"
+      loop h { s with msgs := s.msgs ++ [m], stream := s.stream ++ b, bounds := s.bounds ++ [s.stream.length + b.length] }
+  | ["X", _, hx] =>
+    let b := unhex hx
+    IO.println s!"R render={b.length}:{hexNat (fnv b).toNat}"
+    loop h { s with stream := s.stream ++ b, neighbour := true }
+  | "F" :: segs :: rest =>
+    let badUrls := hexList ((field rest "badurl").getD "")
+    let badProtos := hexList ((field rest "badproto").getD "")
+    let g : Cfg := { s.g with urlOk := fun u => !badUrls.contains u, protoOk := fun u => !badProtos.contains u }
+    let segl := if segs == "whole" then [] else (segs.splitOn ",").map String.toNat!
+    let r := feedSegs g s.limit (s.stream.length + 1) (Http.init g) [] s.stream segl []
+    let msgs := match procRun g.isClient none r.evs [] with
+      | some (_, out) => String.intercalate ";" (out.map showDelivered)
+      | none => "proc-nil-deref"
+    let (err, cache, st) := match r.fin with
+      | .inl (p', cache') => (0, cache'.length, p'.st.num)
+      | .inr e => (e, 0, 0)
+    if s.neighbour then
+      IO.println s!"R err={err} cache={if err == 0 then toString cache else "?"} st={if err == 0 then toString st else "?"} nb={msgs} offs=- ref=-"
+    else
+      let done := (r.evs.filter (· == Ev.complete)).length
+      let offs := String.intercalate "," ((s.bounds.take done).map toString)
+      let ref := String.intercalate ";" (s.msgs.map showNorm)
+      -- instances of the C07 theorems, evaluated on this case (cannot fail for well-formed messages)
+      let specEvs := (s.msgs.map eventsOf).flatten
+      let specDel : List Delivered := s.msgs.filterMap fun m =>
+        match reqSpec m, respSpec m with
+        | some q, _ => some (.req q) | _, some p => some (.resp p) | _, _ => none
+      let flat (evs : List Ev) : List Ev := evs   -- body events are whole per message in both
+      let ok := flat r.evs == specEvs && deliveredOf g.isClient specEvs == specDel
+      IO.println s!"R err={err} cache={if err == 0 then toString cache else "?"} st={if err == 0 then toString st else "?"} nb={msgs} offs={offs} ref={ref}{if ok then "" else " spec-mismatch"}"
+    loop h s
+  -- hhttpe (engine-level "nothing after an error"): an implementation-only stream; the model-level statement is
+  -- theorem c08_silent_after_close, the driver only keeps the line protocol in step (fields compared: none)
+  | ["C", mode] => IO.println (if mode == "0" || mode == "1" || mode == "2" then "ok" else "bad-op"); loop h s
+  | ["S", _, _, _] => IO.println "R"; loop h s
   | _ => IO.println "bad-op"; loop h s
 
 def main : IO Unit := do
   let g : Cfg := { isClient := false, maxBody := 0, urlOk := fun _ => true, protoOk := fun _ => true }
-  loop (← IO.getStdin) { g, limit := 0, p := Http.init g, cache := [], dead := false }
+  loop (← IO.getStdin) { g, limit := 0, p := Http.init g, cache := [], cur := none, dead := false }
